@@ -468,6 +468,97 @@ func (e *segEnv) alive() bool {
 	return resp.StatusCode == 200
 }
 
+// poolBattery: what one peer sends must not end up in what is recorded for
+// another. Dozens of peers open with the header of a (large) alert record, which
+// crypto/tls accepts as a first record, and then trickle the record body (bytes
+// of somebody else's ClientHello) while honest clients deliver their hellos in
+// many small segments. The per-connection hello buffers come from a pool, so a
+// buffer handed back while its connection still reads shows up here.
+func (e *segEnv) poolBattery(fresh map[string][]byte, rounds int, rng *lib.Rng) {
+	r := e.r
+	var names []string
+	for _, hc := range helloConfigs {
+		if len(fresh[hc.Name]) > 0 {
+			names = append(names, hc.Name)
+		}
+	}
+	if len(names) < 2 {
+		return
+	}
+	for round := 0; round < rounds; round++ {
+		r.journal(fmt.Sprintf("seg pool battery round %d", round), nil)
+		const hostile = 48
+		poison := fresh[names[round%len(names)]]
+		var hs []net.Conn
+		for i := 0; i < hostile; i++ {
+			c, err := net.DialTimeout("tcp", e.addr, 30*time.Second)
+			if err != nil {
+				continue
+			}
+			local := c.LocalAddr().String()
+			e.byAddr.Store(local, map[string]interface{}{"class": "alert-record-trickled", "round": round})
+			c.SetDeadline(time.Now().Add(2 * time.Minute))
+			// alert, TLS 1.0 record version, 16000 bytes announced
+			c.Write([]byte{21, 3, 1, 0x3e, 0x80})
+			e.ln.waitConsumed(local, 5)
+			hs = append(hs, c)
+		}
+		stop := make(chan struct{})
+		var hwg sync.WaitGroup
+		for _, c := range hs {
+			hwg.Add(1)
+			go func(c net.Conn) {
+				defer hwg.Done()
+				local := c.LocalAddr().String()
+				sent := int64(5)
+				// a record header followed by hello bytes, again and again, at most the announced length
+				chunk := append([]byte{22, 3, 1, byte(len(poison) >> 8), byte(len(poison))}, poison...)
+				for sent+int64(len(chunk)) < 15000 {
+					select {
+					case <-stop:
+						return
+					default:
+					}
+					if _, err := c.Write(chunk); err != nil {
+						return
+					}
+					sent += int64(len(chunk))
+					e.ln.waitConsumed(local, sent)
+				}
+			}(c)
+		}
+		var wg sync.WaitGroup
+		for i := 0; i < 8; i++ {
+			name := names[(round+1+i)%len(names)]
+			rl := len(fresh[name]) + 5
+			var cuts []int
+			step := 16 + rng.Intn(48)
+			for k := 1 + rng.Intn(6); k < rl; k += step {
+				cuts = append(cuts, k)
+			}
+			wg.Add(1)
+			go func(sc segCase) {
+				defer wg.Done()
+				e.runSeg(sc)
+			}(segCase{Config: name, Cuts: cuts, UA: "curl/7.51.0"})
+		}
+		wg.Wait()
+		close(stop)
+		hwg.Wait()
+		for _, c := range hs {
+			if tc, ok := c.(*net.TCPConn); ok {
+				tc.SetLinger(0)
+			}
+			e.ln.conns.Delete(c.LocalAddr().String())
+			e.byAddr.Delete(c.LocalAddr().String())
+			c.Close()
+		}
+		r.count("seg_pool_battery_rounds", 1)
+		r.count("seg_pool_battery_hostile_connections", int64(len(hs)))
+		r.count("seg_pool_battery_honest_hellos", 8)
+	}
+}
+
 func subSeg(args []string) int {
 	if len(args) < 5 {
 		return 3
@@ -557,7 +648,7 @@ func subSeg(args []string) int {
 		if decl < 0 {
 			decl = 0
 		}
-		typ := []byte{22, 22, 22, 23, 0, 255}[rr.Intn(6)]
+		typ := []byte{22, 22, 22, 23, 0, 255, 21}[rr.Intn(7)]
 		recb := append([]byte{typ, 3, byte(rr.Intn(4)), byte(decl >> 8), byte(decl)}, m.b...)
 		var cuts []int
 		for j := rr.Intn(4); j > 0 && len(recb) > 1; j-- {
@@ -606,6 +697,13 @@ func subSeg(args []string) int {
 	}
 	close(jobs)
 	wg.Wait()
+	if shard == 0 {
+		rounds := 6
+		if thorough {
+			rounds = 60
+		}
+		env.poolBattery(fresh, rounds, rngFor(seed, "c19/pool"))
+	}
 	env.scanPanics()
 	if !env.alive() {
 		r.violation("C19/tls-listener-dead", "the TLS listener no longer completes a plain handshake + request after the hostile inputs", nil)
